@@ -570,7 +570,7 @@ func c12Run(e *emitter, s c12Stmt, st *refStore, polls []int, seq, step int, rea
 	for i, r := range rds {
 		rdT[i] = "(" + coqStr(r.k) + ", " + c12OptStr(r.v) + ")"
 	}
-	term := fmt.Sprintf("Case %d %s %d %s %s %s %s %s %s", kind, coqPairs(prior), n, coqList(ents),
+	term := fmt.Sprintf("Plain (Case %d %s %d %s %s %s %s %s %s)", kind, coqPairs(prior), n, coqList(ents),
 		coqList(pl), coqList(obsRes), c12CoqLog(log), coqPairs(final), coqList(rdT))
 	nontrivial := n > 0 && len(polls) > 0
 	if !genFails && genKnown {
@@ -704,7 +704,7 @@ func c12Patterns(maxLen int) [][]int {
 
 func runC12(c *runCtx) error {
 	r := newRng(c.seed)
-	e := newEmitter(c.out, "C12", "From Coq Require Import List String.\nFrom KV Require Import Base.Bytes Model.Storage Corr.C12.\nImport ListNotations.\nOpen Scope string_scope.\n", 400)
+	e := newEmitter(c.out, "C12", "From Coq Require Import List String ZArith.\nFrom KV Require Import Base.Bytes Model.Storage Corr.C12.\nImport ListNotations.\nOpen Scope string_scope.\n", 400)
 	e.m.Rule = "a case = (PUT/REMOVE statement over the expression pools, prior state, polling pattern over {Next,Batch}); observed: per-poll result, storage call log, final state, point SELECTs afterwards; non-trivial = at least one pair/key and at least one poll; distinct = distinct Gallina case terms"
 	deep := c.thorough() || c.search
 	patterns := c12Patterns(4)
@@ -923,7 +923,451 @@ func runC12(c *runCtx) error {
 			c12Run(e, s, st, polls, sq, step, []string{pick(r, []string{"a", "b", "ab", "12", "7", "C", "m"})})
 		}
 	}
+	// part E: the statements as query TEXTS through the whole pipeline (Model/PipelineW.v)
+	pwRunC12(c, e, r)
 	e.m.Exhaustive = true
 	e.m.Notes = append(e.m.Notes, "exhaustive: all PUT statements of <= 2 pairs and REMOVE statements of <= 3 keys over the (tier-dependent) pools; all polling patterns of length <= 4 on the representative statements; random beyond")
 	return e.flush()
+}
+
+// ---------------------------------------------------------------------------------------------
+// C12 from the query TEXT: kvql.NewOptimizer(q).BuildPlan(store) + the polls against the Coq twin
+// of the whole pipeline (Model/PipelineW.v write_text, evaluated by Corr/C12.v check_wtext):
+// lexer, statement parser, Validate (no `value` in PUT, no key / value in REMOVE, text-or-number
+// results), function-call check, NO constant folding, PutPlan / RemovePlan over the evaluator twin.
+
+type pwReplay struct {
+	Kind      string      `json:"kind"`
+	Query     string      `json:"query"`
+	Prior     [][2]string `json:"prior_state"`
+	Polls     []string    `json:"polls"`
+	Build     string      `json:"build_plan"`
+	Results   []string    `json:"poll_results,omitempty"`
+	Log       []string    `json:"storage_calls"`
+	Final     [][2]string `json:"final_state"`
+	Want      [][2]string `json:"required_final_state,omitempty"`
+	Evaluated []string    `json:"evaluated_expressions,omitempty"`
+	Panic     string      `json:"panic,omitempty"`
+}
+
+// words whose case is varied (keywords and function names are case-insensitive)
+var pwCaseWords = map[string]bool{"put": true, "remove": true, "delete": true, "where": true, "limit": true, "and": true,
+	"or": true, "in": true, "between": true, "key": true, "value": true, "true": true, "false": true, "upper": true,
+	"lower": true, "str": true, "strlen": true, "int": true}
+
+// pwRender: the units of q re-joined with varied spacing (style as in pbRender) and keyword case,
+// then 0..2 trailing semicolons
+func pwRender(r *rng, q string, style int, mixCase bool, semis int) string {
+	toks := pbTokens(q)
+	if mixCase {
+		for i, t := range toks {
+			if pwCaseWords[t] {
+				switch r.intn(3) {
+				case 0:
+					toks[i] = strings.ToUpper(t)
+				case 1:
+					toks[i] = strings.ToUpper(t[:1]) + t[1:]
+				}
+			}
+		}
+	}
+	for i := 0; i < semis; i++ {
+		toks = append(toks, ";")
+	}
+	return pbRender(r, toks, style, false)
+}
+
+// pwWrap: an expression text in 0..2 pairs of parentheses
+func pwWrap(r *rng, x string) string {
+	for k := r.intn(3); k > 0 && r.chance(1, 2); k-- {
+		x = "(" + x + ")"
+	}
+	return x
+}
+
+// pwTable: the harness's own parse of q and evaluation of every key / value expression through
+// the public Expression.Execute (as c12Table, without knowing the statement beforehand)
+func pwTable(q string) (kind, n int, table []c12Entry, evPairs [][2]string, evalOK, ok bool) {
+	defer func() {
+		if r := recover(); r != nil {
+			ok = false
+		}
+	}()
+	pstmt, perr := kvql.NewParser(q).Parse()
+	if perr != nil {
+		return 0, 0, nil, nil, false, false
+	}
+	evalOK = true
+	switch ps := pstmt.(type) {
+	case *kvql.PutStmt:
+		kind, n = 0, len(ps.KVPairs)
+		for i, kvp := range ps.KVPairs {
+			k, kf := c12Eval(kvp.Key, "")
+			table = append(table, c12Entry{2 * i, "", k, kf, kvp.Key.String()})
+			if kf {
+				evalOK = false
+				continue
+			}
+			v, vf := c12Eval(kvp.Value, k)
+			table = append(table, c12Entry{2*i + 1, k, v, vf, kvp.Value.String()})
+			if vf {
+				evalOK = false
+			}
+			evPairs = append(evPairs, [2]string{k, v})
+		}
+	case *kvql.RemoveStmt:
+		kind, n = 1, len(ps.Keys)
+		for i, ke := range ps.Keys {
+			k, kf := c12Eval(ke, "")
+			table = append(table, c12Entry{i, "", k, kf, ke.String()})
+			if kf {
+				evalOK = false
+			}
+			evPairs = append(evPairs, [2]string{k, ""})
+		}
+	default:
+		return 0, 0, nil, nil, false, false
+	}
+	return kind, n, table, evPairs, evalOK, true
+}
+
+// pwGen: what the generator wrote (nil for directed and mangled texts): the pool expressions with
+// the generator's own denotation, independent of the implementation's parser and evaluator
+type pwGen struct {
+	remove     bool
+	keys, vals []c12Expr
+}
+
+func pwWriteCase(e *emitter, q string, prior [][2]string, polls []int, origin string, gen *pwGen) {
+	rp := pwReplay{Kind: "PUT / REMOVE text through NewOptimizer(q).BuildPlan(store), polled", Query: q, Prior: prior}
+	st := newStore(prior)
+	built := ""
+	var obsRes, results []string
+	firstErrClass := ""
+	anyErrLater := false
+	planKind := ""
+	func() {
+		defer func() {
+			if r := recover(); r != nil {
+				rp.Panic = fmt.Sprint(r)
+			}
+		}()
+		kvql.PlanBatchSize = 32
+		kvql.EnableFieldCache = true
+		plan, err := kvql.NewOptimizer(q).BuildPlan(st)
+		if err != nil {
+			if errClass(err) == "syntax" {
+				built = fmt.Sprintf("(WRejected (%d))", errPos(err))
+			} else {
+				built = "WBuildErr"
+			}
+			rp.Build = "error: " + err.Error()
+			return
+		}
+		built = "WAccepted"
+		planKind = fmt.Sprintf("%T", plan)
+		rp.Build = planKind
+		ctx := kvql.NewExecuteCtx()
+		for i, p := range polls {
+			var row []kvql.Column
+			var err error
+			if p == 0 {
+				row, err = plan.Next(ctx)
+				rp.Polls = append(rp.Polls, "Next")
+			} else {
+				var rows [][]kvql.Column
+				rows, err = plan.Batch(ctx)
+				rp.Polls = append(rp.Polls, "Batch")
+				if len(rows) > 1 {
+					rp.Panic = fmt.Sprintf("Batch returned %d rows", len(rows))
+				}
+				if len(rows) > 0 {
+					row = rows[0]
+				}
+			}
+			ec := errClass(err)
+			if ec != "ok" && ec != "storage" {
+				ec = "exec"
+			}
+			cls := map[string]int{"ok": 0, "storage": 1, "exec": 2}[ec]
+			if i == 0 {
+				firstErrClass = ec
+			} else if err != nil {
+				anyErrLater = true
+			}
+			if row == nil {
+				obsRes = append(obsRes, fmt.Sprintf("(None, %d)", cls))
+				results = append(results, fmt.Sprintf("nil err=%v", err))
+			} else {
+				cnt, ok := row[0].(int)
+				if !ok || len(row) != 1 || cnt < 0 {
+					rp.Panic = fmt.Sprintf("unexpected row %v", row)
+					cnt = 0
+				}
+				obsRes = append(obsRes, fmt.Sprintf("(Some %d, %d)", cnt, cls))
+				results = append(results, fmt.Sprintf("[%d] err=%v", cnt, err))
+			}
+		}
+	}()
+	if built == "" { // BuildPlan panicked
+		built = "WBuildErr"
+	}
+	rp.Results = results
+	log := append([]call{}, st.log...)
+	rp.Log = c12LogText(log)
+	final := st.pairs()
+	rp.Final = final
+
+	kind, n, table, evPairs, evalOK, tok := pwTable(q)
+	for _, en := range table {
+		if en.failed {
+			rp.Evaluated = append(rp.Evaluated, fmt.Sprintf("%s [key=%q] -> evaluation error", en.exprText, en.key))
+		} else {
+			rp.Evaluated = append(rp.Evaluated, fmt.Sprintf("%s [key=%q] -> %q", en.exprText, en.key, en.out))
+		}
+	}
+	ents := make([]string, len(table))
+	for i, en := range table {
+		ents[i] = c12CoqEntry(en)
+	}
+	pl := make([]string, len(polls))
+	for i, p := range polls {
+		pl[i] = fmt.Sprint(p)
+	}
+	term := fmt.Sprintf("WText (WTCase %s %s %s (Case %d %s %d %s %s %s %s %s []))", coqStr(q), built, coqBool(tok && built == "WAccepted"),
+		kind, coqPairs(prior), n, coqList(ents), coqList(pl), coqList(obsRes), c12CoqLog(log), coqPairs(final))
+	idx := e.add(term, rp, built == "WAccepted" && n > 0 && len(polls) > 0)
+
+	// measured distribution
+	e.count("text:origin=" + origin)
+	switch {
+	case built == "WAccepted":
+		e.count("text:accepted")
+		e.count("text:plan=" + strings.TrimPrefix(planKind, "*kvql."))
+		e.count(fmt.Sprintf("text:polls=%d", min(len(polls), 7)))
+		if tok && !evalOK {
+			e.count("text:accepted_some_expression_fails")
+		}
+		if tok {
+			seen := map[string]bool{}
+			for _, kv := range evPairs {
+				if seen[kv[0]] {
+					e.count("text:duplicate_key_in_statement")
+					break
+				}
+				seen[kv[0]] = true
+			}
+		}
+	case built == "WBuildErr":
+		e.count("text:build_error_not_syntax")
+	default:
+		e.count("text:rejected")
+	}
+	isWriteStmt := true
+	if toks := pwLex(q); len(toks) == 0 || (toks[0].Tp != kvql.PUT && toks[0].Tp != kvql.REMOVE) {
+		e.count("text:outside_model_not_a_put_or_remove")
+		isWriteStmt = false
+	}
+
+	// direct verdict on the implementation, from the harness's own evaluation of the expressions
+	nw := 0
+	for _, c := range log {
+		if isWrite(c.Op) {
+			nw++
+		}
+	}
+	switch {
+	case !isWriteStmt:
+		// another statement kind (or no statement at all): not this twin's, not C12's
+	case rp.Panic != "":
+		e.fail(idx, "panic / malformed result: "+rp.Panic, "C12/text-panic", rp)
+	case built != "WAccepted":
+		if len(log) != 0 || !c12EqPairs(final, prior) {
+			e.fail(idx, "BuildPlan returned an error, yet the storage was touched", "C12/text-rejected-touches", rp)
+		}
+	case !tok:
+		e.fail(idx, "BuildPlan accepted a text that Parser.Parse does not read as a PUT / REMOVE statement", "C12/text-accepted-unparsed", rp)
+	case len(polls) == 0:
+		if nw != 0 || !c12EqPairs(final, prior) {
+			e.fail(idx, "a plan that was never polled wrote to the store", "C12/text-exactly-once", rp)
+		}
+	case !evalOK:
+		if nw != 0 || !c12EqPairs(final, prior) || firstErrClass != "exec" {
+			e.fail(idx, "an expression failed to evaluate, yet a write was issued / the state changed / no error was returned", "C12/text-all-or-nothing", rp)
+		}
+	default:
+		model := map[string]string{}
+		for _, kv := range prior {
+			model[kv[0]] = kv[1]
+		}
+		for _, kv := range evPairs {
+			if kind == 0 {
+				model[kv[0]] = kv[1]
+			} else {
+				delete(model, kv[0])
+			}
+		}
+		rp.Want = c12SortedMap(model)
+		switch {
+		case nw != c12Btoi(n > 0) || len(log) != nw || firstErrClass != "ok" || anyErrLater:
+			e.fail(idx, fmt.Sprintf("the writes were issued %d time(s) (storage calls %v), required exactly %d", nw, rp.Log, c12Btoi(n > 0)), "C12/text-exactly-once", rp)
+		case !c12EqPairs(final, rp.Want):
+			e.fail(idx, "final state differs from the prior state overwritten in order by the evaluated pairs / minus the evaluated keys of the statement text", "C12/text-final-state", rp)
+		}
+	}
+	// ... and from the generator's own denotation of what it wrote (independent of the
+	// implementation's parser and evaluator)
+	if gen != nil && built == "WAccepted" && rp.Panic == "" && len(polls) > 0 && len(e.m.ImplFails) > 0 && e.m.ImplFails[len(e.m.ImplFails)-1].Case == idx {
+		return
+	}
+	if gen != nil && built == "WAccepted" && rp.Panic == "" && len(polls) > 0 {
+		fails := false
+		for i := range gen.keys {
+			if gen.keys[i].fails || (!gen.remove && gen.vals[i].fails) {
+				fails = true
+			}
+		}
+		if fails {
+			if nw != 0 || !c12EqPairs(final, prior) || firstErrClass != "exec" {
+				e.fail(idx, "an expression the generator wrote fails to evaluate, yet a write was issued / the state changed / no error was returned", "C12/text-all-or-nothing", rp)
+			}
+			return
+		}
+		model := map[string]string{}
+		for _, kv := range prior {
+			model[kv[0]] = kv[1]
+		}
+		for i := range gen.keys {
+			k := gen.keys[i].want("")
+			if gen.remove {
+				delete(model, k)
+			} else {
+				model[k] = gen.vals[i].want(k)
+			}
+		}
+		rp.Want = c12SortedMap(model)
+		if !c12EqPairs(final, rp.Want) {
+			e.fail(idx, "final state differs from the prior state overwritten in order by the pairs / minus the keys the generator wrote into the statement text", "C12/text-final-state", rp)
+		}
+	}
+}
+
+func pwLex(q string) (toks []*kvql.Token) {
+	defer func() {
+		if recover() != nil {
+			toks = nil
+		}
+	}()
+	toks = kvql.NewLexer(q).Split()
+	n := len(toks)
+	for n > 1 && toks[n-1].Tp == kvql.SEMI {
+		n--
+	}
+	return toks[:n]
+}
+
+// texts with a fixed reading: rejections of every front-end stage, shapes at the edge of the
+// statement syntax, evaluation that depends on NOT folding / on the pair's own key
+var pwWriteDirected = []string{
+	"put", "remove", "put;", "remove ;;", "PUT ('a', 'b')", "Remove 'a'", "put('a','b')", "put ( 'a' , 'b' ) ;",
+	"put ('a', value)", "put ('a', key + value)", "put (key, 'v')", "put (key + 'x', 'v')", "put (value, 'v')",
+	"remove key", "remove value", "remove 'a', key", "remove upper(key)", "remove 'a' + value",
+	"put (1 = 1, 'v')", "put ('a', 1 = 1)", "put (true, 'v')", "put ('a', !true)", "remove true", "remove 1 > 2", "remove ('a', 'b')",
+	"put ('a', ('b', 'c'))", "put ('a')", "put ('a',)", "put ('a', 'b',)", "put ('a', 'b') ('c', 'd')", "put ('a', 'b'), ", "put ('a', 'b'),,",
+	"put 'a', 'b'", "put ('a' 'b')", "put (('a', 'b'))", "put ('a', 'b'", "put 'a'", "remove 'a',", "remove 'a' 'b'", "remove ,'a'", "remove 'a',,'b'",
+	"put (nofunc('a'), 'b')", "put ('a', nofunc(key))", "put ('a', upper(key, key))", "put (upper(), 'b')", "remove nofunc('a')", "remove lower('A', 'B')",
+	"put ('a', count(key))", "remove sum(1)", "put ('a', 'b') limit 1", "remove 'a' limit 1", "put ('a', 'b') where key = 'a'", "remove 'a' where key = 'a'",
+	"put ('a', 1 + 'x')", "put ('a' + 1, 'x')", "remove 'a' + 1", "put (1 + 2, 3 * 4)", "put ('1' + '2', key + key)", "remove 1 + 2, '1' + '2'",
+	"put ('k', key), ('k', key + key), ('k', upper(key) + 'z')", "put ('a', 'x'), ('a', 'y'), ('a', key)", "remove 'a', 'a', 'a'",
+	"put (007, key)", "put (00, 'z')", "remove 007, 7, '007'", "put (0012 + 0, key + '!')", "put (12, strlen(key))", "put (9223372036854775807 + 1, 'x')",
+	"put ('a', str(1/(1-1)))", "put (str(1/(1-1)), 'a')", "put ('a', 'x'), ('b', str(1/(strlen(key)-1)))", "remove 'a', str(1/(1-1))", "remove str(2/(strlen('a')-1)), 'a'",
+	"put ('a', 1/0)", "put ('a', 1/(1-1))", "remove 1/0", "put ('a', 1.5)", "put (1.5, 'x')", "put ('f', 0.5 + 0.25)", "remove 2.0", "put ('a', 7 / 2)", "put ('a', 7.0 / 2)",
+	"put ('a', 'it''s')", "put (\"a\", \"b\")", "put ('', '')", "remove ''", "put ('a b', ' ')", "put ('a', key = 'a')", "put ('a', `x`)", "remove `x`", "put ('a', x)", "remove x",
+	"put ('a', upper(lower(upper(key + 'q'))))", "put (lower('AB'), upper(key))", "put ('a', substr('hello', 1, 3) + key)", "remove substr('hello', 1, 3)",
+	"put ('a', 'b') -- c", "select * where key = 'a'", "where key = 'a'", "delete where key = 'a'", "", ";", "x", "('a', 'b')", "put put ('a', 'b')", "remove remove 'a'",
+	"put ('a', value) ('b'", "put ('a', 'b'), ('c', value)", "put ('a', 'b'), (key, 'c')", "remove 'a', 1 = 1", "put ('a', 'b'), ('c', 1 = 1)",
+	"put ('a', key ~= 'x')", "put ('a', str(key ~= 'x'))", "put ('a', json(key))", "put ('a', split('x,y', ',')[1])", "put ('a', list(1, 2)[0])",
+}
+
+func pwRunC12(c *runCtx, e *emitter, r *rng) {
+	e.m.Rule += "; TEXT cases: PUT / REMOVE statements over the same expression pools rendered as query texts (varied spacing, keyword case, trailing semicolons, parenthesised expressions, number-literal keys in non-canonical spelling, duplicate keys, constant sub-expressions that the optimizer would fold in a WHERE clause, `key` inside PUT values, failing expressions), a directed list of rejections of every front-end stage and statement-syntax edge shapes, and malformed variants, x prior states x polling patterns; each is run through kvql.NewOptimizer(q).BuildPlan(store) and polled, and compared with Model/PipelineW.v write_text on the text (accepted / rejected and error position, poll results, storage call log, final state)"
+	deep := c.thorough() || c.search
+	patterns := c12Patterns(4)
+	randPrior := func() [][2]string {
+		universe := []string{"", "0", "007", "12", "3", "7", "C", "a", "ab", "abc", "b", "f", "k", "kXy", "m", "zz"}
+		kvs := [][2]string{}
+		for _, k := range universe {
+			if r.chance(2, 5) {
+				kvs = append(kvs, [2]string{k, fmt.Sprintf("p%d", r.intn(50))})
+			}
+		}
+		return kvs
+	}
+	randPolls := func() []int {
+		if r.chance(1, 12) {
+			return []int{}
+		}
+		np := 1 + r.intn(5)
+		polls := make([]int, np)
+		for j := range polls {
+			polls[j] = r.intn(2)
+		}
+		return polls
+	}
+	for i, q := range pwWriteDirected {
+		pwWriteCase(e, q, randPrior(), patterns[1+i%(len(patterns)-1)], "directed", nil)
+		if deep {
+			pwWriteCase(e, pwRender(r, q, 2, true, r.intn(3)), randPrior(), randPolls(), "directed", nil)
+			pwWriteCase(e, pwRender(r, q, 1, true, 0), randPrior(), randPolls(), "directed", nil)
+		}
+	}
+	n := 420
+	if deep {
+		n = 12000
+	}
+	keyPool := append(append([]c12Expr{}, c12KeyPool...), c12SpellKeys...)
+	for i := 0; i < n; i++ {
+		remove := r.chance(1, 3)
+		np := r.intn(5)
+		if r.chance(1, 20) {
+			np = 6 + r.intn(30)
+		}
+		failing := r.chance(1, 4)
+		parts := []string{}
+		gen := &pwGen{remove: remove}
+		for j := 0; j < np; j++ {
+			var k, v c12Expr
+			for {
+				k = pick(r, keyPool)
+				v = pick(r, c12ValPool)
+				if failing || !(k.fails || (!remove && v.fails)) {
+					break
+				}
+			}
+			gen.keys = append(gen.keys, k)
+			if remove {
+				parts = append(parts, pwWrap(r, k.text))
+			} else {
+				gen.vals = append(gen.vals, v)
+				parts = append(parts, "("+pwWrap(r, k.text)+", "+pwWrap(r, v.text)+")")
+			}
+		}
+		q := "put "
+		if remove {
+			q = "remove "
+		}
+		q += strings.Join(parts, ", ")
+		semis := 0
+		if r.chance(1, 3) {
+			semis = 1 + r.intn(2)
+		}
+		q = pwRender(r, q, r.intn(3), r.chance(1, 2), semis)
+		origin := "generated"
+		if r.chance(1, 7) {
+			q = pbMangle(r, q)
+			origin = "mangled"
+			gen = nil
+		}
+		pwWriteCase(e, q, randPrior(), randPolls(), origin, gen)
+	}
 }
